@@ -6,6 +6,7 @@
   garbage-collection channel exactly when the count reaches zero, and `gc` despawns exactly what is on the channel.
   Stated per registration call (DESIGN §8 R2).
 -/
+import Cobweb.Proofs.Boot
 import Cobweb.Proofs.Kill
 import Cobweb.Proofs.ArcCount
 import Cobweb.Proofs.GcSend
@@ -120,20 +121,20 @@ example : (dropHandle ({ arcRc := fun _ => 1, arcEnt := fun _ => 9 } : St) ⟨9,
   sends the reactor to the garbage collector (`drop_last`: the one that reaches zero) has not happened. -/
 
 /-- A type-wide registration keeps its arc alive. -/
-theorem registered_typewide_alive {p : Prog} {hh : Hist} (hsig : SigOK hh) {s : St} (hr : Reach p hh ({} : St) s)
+theorem registered_typewide_alive {p : Prog} {hh : Hist} (hsig : SigOK hh) {s : St} {s0 : St} (hI0 : AllInv s0) (hr : Reach p hh s0 s)
     (t : Tbl) (ty : Nat) (h : Handle) (a : Nat) (hm : h ∈ s.tbl t ty) (ha : h.arc = some a) (hu : a ∉ s.sigs) :
     1 ≤ s.arcRc a := by
-  have I := arc_reach p hh hsig hr
+  have I := arc_reach_from p hh hsig hI0.arc hr
   have := I.le (ty + 1) 0 a hu
   have := holders_ge_tbl a s t ty 0
   have := hcount_pos_of_mem hm ha
   omega
 
 /-- An entity-scoped registration keeps its arc alive. -/
-theorem registered_entity_alive {p : Prog} {hh : Hist} (hsig : SigOK hh) {s : St} (hr : Reach p hh ({} : St) s)
+theorem registered_entity_alive {p : Prog} {hh : Hist} (hsig : SigOK hh) {s : St} {s0 : St} (hI0 : AllInv s0) (hr : Reach p hh s0 s)
     (e : Nat) (l : List (RType × Handle)) (rt : RType) (h : Handle) (a : Nat) (hl : s.entReactors e = some l)
     (hm : (rt, h) ∈ l) (ha : h.arc = some a) (hu : a ∉ s.sigs) : 1 ≤ s.arcRc a := by
-  have I := arc_reach p hh hsig hr
+  have I := arc_reach_from p hh hsig hI0.arc hr
   have := I.le 0 (e + 1) a hu
   have := holders_ge_ent a s e 0
   have hm' : h ∈ entHandles s e := by
@@ -143,9 +144,9 @@ theorem registered_entity_alive {p : Prog} {hh : Hist} (hsig : SigOK hh) {s : St
   omega
 
 /-- A despawn trigger keeps its arc alive. -/
-theorem registered_despawn_alive {p : Prog} {hh : Hist} (hsig : SigOK hh) {s : St} (hr : Reach p hh ({} : St) s)
+theorem registered_despawn_alive {p : Prog} {hh : Hist} (hsig : SigOK hh) {s : St} {s0 : St} (hI0 : AllInv s0) (hr : Reach p hh s0 s)
     (e : Nat) (h : Handle) (a : Nat) (hm : h ∈ s.tblDsp e) (ha : h.arc = some a) (hu : a ∉ s.sigs) : 1 ≤ s.arcRc a := by
-  have I := arc_reach p hh hsig hr
+  have I := arc_reach_from p hh hsig hI0.arc hr
   have := I.le 0 (e + 1) a hu
   have := holders_ge_dsp a s e 0
   have := hcount_pos_of_mem hm ha
@@ -153,10 +154,10 @@ theorem registered_despawn_alive {p : Prog} {hh : Hist} (hsig : SigOK hh) {s : S
 
 /-- A pending despawn reaction (its handle waits in the despawn tracker, or is the one being reacted to) keeps its arc
     alive. -/
-theorem pending_despawn_reaction_alive {p : Prog} {hh : Hist} (hsig : SigOK hh) {s : St} (hr : Reach p hh ({} : St) s)
+theorem pending_despawn_reaction_alive {p : Prog} {hh : Hist} (hsig : SigOK hh) {s : St} {s0 : St} (hI0 : AllInv s0) (hr : Reach p hh s0 s)
     (h : Handle) (a : Nat) (ha : h.arc = some a) (hu : a ∉ s.sigs)
     (hm : (∃ sys src, (sys, src, h) ∈ s.trkDsp.prepared) ∨ s.trkDsp.curHandle = some h) : 1 ≤ s.arcRc a := by
-  have I := arc_reach p hh hsig hr
+  have I := arc_reach_from p hh hsig hI0.arc hr
   have hle := I.le 0 0 a hu
   have : 1 ≤ trkH a s := by
     rw [trkH_eq]
@@ -169,9 +170,9 @@ theorem pending_despawn_reaction_alive {p : Prog} {hh : Hist} (hsig : SigOK hh) 
   omega
 
 /-- An arc that does not exist yet has no holder and count zero. -/
-theorem unborn_arc {p : Prog} {hh : Hist} (hsig : SigOK hh) {s : St} (hr : Reach p hh ({} : St) s) (a : Nat)
+theorem unborn_arc {p : Prog} {hh : Hist} (hsig : SigOK hh) {s : St} {s0 : St} (hI0 : AllInv s0) (hr : Reach p hh s0 s) (a : Nat)
     (ha : s.nextArc ≤ a) : s.arcRc a = 0 :=
-  ((arc_reach p hh hsig hr).fresh 0 0 a ha).2
+  ((arc_reach_from p hh hsig hI0.arc hr).fresh 0 0 a ha).2
 
 example : ArcInv ({} : St) := arc_default
 
@@ -197,14 +198,14 @@ example : SigOK demoHist := by intro t s a h; simp only [demoHist] at h; split a
     despawn tables, the queued registration / despawn-reaction commands and the despawn tracker number exactly `arcRc a`.
     Together: a cleanup / revokable reactor's count is positive exactly as long as one of its triggers is registered (or
     being registered) or a despawn reaction for it is pending. -/
-theorem count_is_number_of_holders {p : Prog} {hh : Hist} (hsig : SigOK2 hh) {s : St} (hr : Reach p hh ({} : St) s)
+theorem count_is_number_of_holders {p : Prog} {hh : Hist} (hsig : SigOK2 hh) {s : St} {s0 : St} (hI0 : AllInv s0) (hr : Reach p hh s0 s)
     (a : Nat) (ha : a ∉ s.sigs) : ∃ B N, ∀ B' N', B ≤ B' → N ≤ N' → holders B' N' a s = s.arcRc a :=
-  arc_exact p hh hsig hr a ha
+  arc_exact_from p hh hsig hI0 hr a ha
 
 /-- **No leak**: an arc nobody holds has count zero. -/
-theorem unheld_arc_has_count_zero {p : Prog} {hh : Hist} (hsig : SigOK2 hh) {s : St} (hr : Reach p hh ({} : St) s)
+theorem unheld_arc_has_count_zero {p : Prog} {hh : Hist} (hsig : SigOK2 hh) {s : St} {s0 : St} (hI0 : AllInv s0) (hr : Reach p hh s0 s)
     (a : Nat) (ha : a ∉ s.sigs) (h0 : ∀ B N, holders B N a s = 0) : s.arcRc a = 0 :=
-  no_holder_zero p hh hsig hr a ha h0
+  no_holder_zero_from p hh hsig hI0 hr a ha h0
 
 /-- **The step in which the last holder disappears hands the reactor to the collector**: if the count of an existing arc
     is positive before a step and zero after it, the arc's entity is on the auto-despawn channel after the step. -/
